@@ -71,12 +71,13 @@ static vh_key_t KH, KE;
 static jwk_set_t *sets[2];
 static const jwk_item_t *IH[2], *IE[2];
 
-#define NTOK 20
+#define NTOK 23
 static char *TOK[NTOK];
 static int TOKKIND[NTOK];	/* 0 unsigned, 1 HS256, 2 ES256 */
 static const char *TOKNAME[NTOK] = { "hs:pass", "hs:expired", "hs:not-yet-valid", "hs:wrong-iss", "hs:missing-sub", "hs:wrong-aud", "hs:bad-signature",
 	"es:pass", "es:expired", "es:bad-signature", "none:pass", "none:expired", "none:not-yet-valid", "none:wrong-iss", "none:missing-sub", "none:wrong-aud",
-	"hs:no-time-claims", "hs:pass-with-crit-and-kid", "es:pass-with-crit-and-kid", "hs:wrong-iss-with-crit" };
+	"hs:no-time-claims", "hs:pass-with-crit-and-kid", "es:pass-with-crit-and-kid", "hs:wrong-iss-with-crit",
+	"hs:empty-payload", "none:empty-payload", "hs:only-unrelated-claim" };
 
 static void build_tokens(void)
 {
@@ -101,6 +102,10 @@ static void build_tokens(void)
 	TOK[17] = vh_ref_token(&KH, JWT_ALG_HS256, "{\"alg\":\"HS256\",\"typ\":\"JWT\",\"crit\":[\"exp\"],\"kid\":\"k0\",\"cty\":\"json\"}", PL[0]); TOKKIND[17] = 1;
 	TOK[18] = vh_ref_token(&KE, JWT_ALG_ES256, "{\"alg\":\"ES256\",\"crit\":[\"exp\"],\"kid\":\"k0\"}", PL[0]); TOKKIND[18] = 2;
 	TOK[19] = vh_ref_token(&KH, JWT_ALG_HS256, "{\"alg\":\"HS256\",\"typ\":\"JWT\",\"crit\":[\"exp\"]}", PL[3]); TOKKIND[19] = 1;
+	/* payloads without any of the checked claims: whatever the callback adds must not count */
+	TOK[20] = vh_ref_token(&KH, JWT_ALG_HS256, HH, "{}"); TOKKIND[20] = 1;
+	TOK[21] = vh_ref_token(NULL, JWT_ALG_NONE, HN, "{}"); TOKKIND[21] = 0;
+	TOK[22] = vh_ref_token(&KH, JWT_ALG_HS256, HH, "{\"name\":\"bob\"}"); TOKKIND[22] = 1;
 }
 
 /* policy bits: 1 exp on, 2 nbf on, 4 iss=me, 8 sub=s, 16 aud=x */
